@@ -200,7 +200,9 @@ class World:
                     from . import lifecycle as lc
                     for fop in it.get('faults', []):
                         lc.apply_op(g, fop)
-                if it['kind'] == 'transformed':
+                # the per-world custom model (index 3) is left untouched while the world is built, so that
+                # its first use - and whatever it initialises lazily - happens inside the simulated phase
+                if it['kind'] == 'transformed' and mi != 3:
                     f = getattr(transform, it['transform'])
                     try:
                         g = f(g) if it['transform'] == 'reify_attributes' else f(g, model)
